@@ -87,12 +87,13 @@ def interconnect_candidates(c, cells, lib):
     return out
 
 
-def render(cname, E, I, grouping, igroup, rng):
+def render(cname, E, I, grouping, igroup, rng, subst=None):
+    subst = subst or {}
     lines = ['(DELAYFILE', ' (SDFVERSION "3.0")', f' (DESIGN "{cname}")', ' (DIVIDER /)', ' (TIMESCALE 1ns)']
 
     def tr(t):
         if t is None: return '()'
-        return '(' + ':'.join('' if v is None else f'{v / 1000:.3f}' for v in t) + ')'
+        return '(' + ':'.join('' if v is None else f'{subst.get(v, v / 1000):.3f}' for v in t) + ')'
 
     def iop(e):
         _, inst, ip, edge, out, r, f = e
@@ -139,7 +140,7 @@ def render(cname, E, I, grouping, igroup, rng):
     return '\n'.join(lines) + '\n'
 
 
-def make(job):
+def make(job, subst=None):
     cname, branchforks, grouping, igroup, k, seed = job
     rng = random.Random(f'{seed}/{cname}/{branchforks}/{grouping}/{igroup}/{k}')
     lib, src, cells = CIRCUITS[cname]
@@ -155,7 +156,7 @@ def make(job):
     for o, d, line in interconnect_candidates(c, cells, lib):
         if rng.random() < 0.75: I.append((o, d, line, tri(0.0), tri(0.2)))
     if igroup == 'none': I = []
-    text = render(cname, E, I, grouping, igroup, rng)
+    text = render(cname, E, I, grouping, igroup, rng, subst)
     return c, lib, cells, E, I, text
 
 
@@ -229,7 +230,7 @@ def check_job(job):
         finally:
             sdf.np = old
         X = expected(c, lib, cells, E, I, var)
-        bad = None
+        bad, neq = None, z3.BoolVal(True)
         for kind, arr in (('io', io), ('ic', ic)):
             if arr.shape != (3, len(c.lines), 2, 2): bad = f'{kind} array shape {arr.shape}'; break
             for idx in np.ndindex(arr.shape):
@@ -241,9 +242,16 @@ def check_job(job):
                 else:
                     which = 'IOPATH' if kind == 'io' else 'INTERCONNECT'
                     bad = f'{which} array entry [dataset {idx[0]}, line {idx[1]}, in-pol {idx[2]}, out-pol {idx[3]}] = {got}, file states {want}'
+                    neq = (gt.e != wt.e) if (gt.c == 0 and wt.c == 0) else z3.BoolVal(True)
                     break
             if bad: break
-        if bad: found.append(bad)
+        if bad:
+            cons = [v * 8 == z3.Int(f'grid{t}') for t, v in vs.items()]
+            mdl = eng.solver.model() if eng.solver.check(neq, *cons) == z3.sat else (eng.solver.model() if eng.solver.check(neq) == z3.sat else eng.model())
+            sub = {}
+            for t, v in vs.items():
+                x = mdl.eval(v, model_completion=True); sub[t] = float(x.numerator_as_long()) / float(x.denominator_as_long())
+            found.append((bad, sub))
         return 1
       try: eng.explore(fn)
       except EngineUnknown as e: rep.error(f'{job}: {e}')
@@ -253,6 +261,8 @@ def check_job(job):
           else: rep.error(f'{job}: symbolic annotation raised {type(e).__name__}: {e}')
       rep.counts['paths'] += eng.npaths; rep.counts['branches'] += eng.nbranches; rep.solver_s += eng.tsolve
     if found:
+        data['subst'] = [[t, v] for t, v in found[0][1].items()]
+        found = [found[0][0]]
         ok, what = replay(data)
         key = 'lost-entries/repeated-blocks' if job[2] != 'per-instance' or job[3] in ('split', 'halves') else 'annotation'
         if ok: rep.violation(key, f'{cname} branchforks={job[1]} grouping={job[2]}/{job[3]}: {found[0]}; replay: {what}', data)
@@ -265,13 +275,14 @@ def check_job(job):
 
 def replay(data):
     job = tuple(data['job'])
-    c, lib, cells, E, I, text = make(job)
+    subst = {int(t): float(v) for t, v in data.get('subst', [])}
+    c, lib, cells, E, I, text = make(job, subst)
     try:
         df = sdf.parse(text)
         io = df.iopaths(c, getattr(techlib, lib)); ic = df.interconnects(c, getattr(techlib, lib))
     except Exception as e:
         return True, f'{type(e).__name__}: {e}'
-    X = expected(c, lib, cells, E, I, lambda t: t / 1000)
+    X = expected(c, lib, cells, E, I, lambda t: subst.get(t, t / 1000))
     for kind, arr in (('io', io), ('ic', ic)):
         for idx in np.ndindex(arr.shape):
             want = X.get((kind,) + idx, 0)
